@@ -75,6 +75,7 @@ pub fn profiles() -> Vec<Profile> {
         Profile { repair: false, max_tokens: 4, pratt: true, pratt_shared_ops: true, preds: true, parts: true, ..Profile::base("pratt-shared-ops") },
         Profile { preds: true, pred_t: true, pratt: true, parts: true, choice: true, ..Profile::base("repaired") },
         Profile { repair: false, ..Profile::full() },
+        Profile { max_rules: 16, max_tokens: 8, depth: 2, name: "big", ..Profile::full() },
     ]
 }
 
@@ -139,7 +140,7 @@ pub fn run(ctx: &Ctx) -> i32 {
     ev.set("exhaustive_subspaces", json!(fams.iter().map(|f| format!("{f:?}")).collect::<Vec<_>>()));
     let cases = ctx.tier.pick(300_000u32, 3_000_000u32);
     for p in profiles() {
-        let out = prop::run_prop("C10", ctx.tier, ctx.seed, p.name, cases / 4, ctx.threads, 400, |stream, ev| {
+        let out = prop::run_prop("C10", ctx.tier, ctx.seed, p.name, cases / 5, ctx.threads, if p.name == "big" { 900 } else { 400 }, |stream, ev| {
             let g = ggen::build(&p, stream);
             check_grammar(&g, ev, p.name).map(|_| ())
         });
